@@ -295,6 +295,16 @@ def corpus_histories():
            'crange 1 %s %s' % (hx('d'), hx('e')), 'layout', 'get %s -' % hx('p'), 'get %s 0' % hx('p'), 'get %s 1' % hx('p'), 'scan -', 'scan 0', 'scan 1',
            'reopen', 'get %s -' % hx('p'), 'layout']
     out.append((dict(BASE_CFG, write_buffer=8388608), ops))
+    # (8) old values in the DEEPEST level (6), then a deletion whose tombstone meets other data in merging compactions of the
+    #     upper levels: the tombstone must survive them (its key still has an older value below), with and without a snapshot
+    #     taken after the deletion
+    ops = ['open'] + ['put %s @30:%d' % (hx('d%02d' % i), i) for i in range(20)] + ['flush'] + ['crange %d * *' % l for l in range(6)]
+    ops += ['layout', 'put %s @5:1' % hx('d06'), 'put %s @5:2' % hx('d08'), 'flush', 'crange 0 * *', 'layout',
+            'del %s' % hx('d07'), 'snap', 'put %s @5:3' % hx('d08'), 'flush', 'layout', 'crange 0 * *', 'layout', 'get %s -' % hx('d07'), 'get %s 0' % hx('d07'),
+            'crange 1 * *', 'layout', 'get %s -' % hx('d07'), 'crange 2 * *', 'layout', 'get %s -' % hx('d07'), 'get %s 0' % hx('d07'), 'scan -', 'scan 0',
+            'release 0', 'del %s' % hx('d09'), 'put %s @5:4' % hx('d10'), 'flush', 'crange 0 * *', 'crange 1 * *', 'get %s -' % hx('d09'), 'scan -',
+            'reopen', 'get %s -' % hx('d07'), 'get %s -' % hx('d09'), 'scan -', 'layout']
+    out.append((dict(BASE_CFG), ops))
     # (5) log / MANIFEST reuse across many version edits: the reused MANIFEST grows past a 32 KiB block boundary
     #     (big keys make each edit ~6 KiB), then clean reopens
     big = lambda i: (bytes([0x62]) * 2990 + b'%04d' % i).hex()
